@@ -11,6 +11,7 @@
 Findings are keyed (isa/mode, clause, format string of the ispec that matched) - the row of the decode table.
 """
 import multiprocessing as mp
+import os
 import multiprocessing.pool
 import sys
 
@@ -74,7 +75,42 @@ def describe(tr, line, clause, other):
     return s
 
 
+def report(ctx, traces, verdicts):
+    for tr in traces:
+        seen = set()
+        for line, clause, other in verdicts[tr["t"]]:
+            k = fail_key(tr, line, clause, other)
+            if k in seen:
+                continue
+            seen.add(k)
+            ctx.fail(k, describe(tr, line, clause, other),
+                     {"source": "T", "trace": tr, "line": line, "clause": clause, "with": other})
+
+
+def replay(ctx):
+    """./check C05 --replay <file>: the recorded family's inputs are decoded again on the current tree and the
+    new history is judged by TLC again"""
+    import json
+    case = json.load(open(ctx.replay))["case"]
+    tr = case["trace"]
+    isa, mode = tr["m"].split("/")
+    with mp.Pool(1) as pool:
+        new = pool.apply(c05.replay_family, ((isa, mode, [bytes(e["in"]).hex() for e in tr["ev"]],
+                                              [e.get("what", "d(?)") for e in tr["ev"]]),))
+    new["t"] = 1
+    verdicts = D.validate(ctx, [new], "c05r")
+    ctx.case(key=("replay", tr["m"]))
+    ctx.case(key=("replay-calls", len(new["ev"])))
+    ctx.trace()
+    ctx.sample({"replayed": ctx.replay, "family": [{"what": e["what"], "in": bytes(e["in"]).hex(), "out": e["out"]} for e in new["ev"]],
+                "verdict": verdicts[1]})
+    ctx.rule = "replay of one recorded call family on the current tree"
+    report(ctx, [new], verdicts)
+
+
 def run(ctx):
+    if ctx.replay:
+        return replay(ctx)
     quick = ctx.tier == "quick"
     ctx.rule = ("one case = one call family d(b), d(b[:n]), d(b[:n-1]), d(b[:n]+t) for 3 suffixes, d(b[:maxlen]), "
                 "d(b) again, on one ISA module/mode; b from every shipped ispec x fillings (%s) + random strings; "
@@ -92,7 +128,8 @@ def run(ctx):
                "set is C11's finding)")
     # --- M ----------------------------------------------------------------------------------------------
     D.selftest(ctx, ("c05",))
-    model_runs(ctx, quick)
+    if not os.environ.get("VERIF_DEC_SKIP_M"):      # development aid for mutation experiments only
+        model_runs(ctx, quick)
     # --- T ----------------------------------------------------------------------------------------------
     fillings = QUICK_FILL if quick else THOROUGH_FILL
     nrandom = 100 if quick else 1500
@@ -138,14 +175,7 @@ def run(ctx):
         else:
             ctx.case()
         ctx.trace()
-        seen = set()
-        for line, clause, other in verdicts[tr["t"]]:
-            k = fail_key(tr, line, clause, other)
-            if k in seen:
-                continue
-            seen.add(k)
-            ctx.fail(k, describe(tr, line, clause, other),
-                     {"source": "T", "trace": tr, "line": line, "clause": clause, "with": other})
+    report(ctx, traces, verdicts)
     ctx.note("per_isa_mode", per)
     ctx.note("decode_calls", ncalls)
     good = [t for t in traces if t["ev"][0]["out"]["k"] == "instr" and len(t["ev"]) > 5]
